@@ -16,7 +16,7 @@ def run(chk, replay=None):
     rtprops.execute(chk, "c15", steps)
     # the collecting / counting callbacks and buffer iterators a C user builds with the helpers of the published header
     import bgrun
-    hn = bgrun.helpers_step(chk, "C15")
+    hn = bgrun.helpers_step(chk, "C15") + bgrun.helpers_step_cpp(chk, "C15")
     rtprops.summarize(chk, ("callback_cases", "collector_cases", "iterator_cases", "callback_round_cases", "adapter_cases"))
     chk.coverage["rule"] = ("exhaustive grid: n = 0..=maxn Tracked items x stop position {never, each index} x entry {feed_into, feed_into_mut, Extend::extend, Callbackable::call} "
                             "x sink {closure, Vec, VecDeque, custom Extend, BTreeSet}; CIterator: n x advance k x non-fused gap position with direct use of the source "
